@@ -78,3 +78,17 @@ package css_ast
 //@     is(ss, *SSPseudoClass) && a.Name == ss.(*SSPseudoClass).Name && a.IsElement == ss.(*SSPseudoClass).IsElement && len(a.Args) == len(ss.(*SSPseudoClass).Args)
 //@ lemma SSPseudoClassWithSelectorList_Equal_complete C12: forall a *SSPseudoClassWithSelectorList, ss SS, check *CrossFileEqualityCheck :: a != nil && a.Equal(ss, check) ==>
 //@     is(ss, *SSPseudoClassWithSelectorList) && a.Kind == ss.(*SSPseudoClassWithSelectorList).Kind && a.Index == ss.(*SSPseudoClassWithSelectorList).Index && len(a.Selectors) == len(ss.(*SSPseudoClassWithSelectorList).Selectors)
+
+// ----------------------------------------------------------------------------------------------
+// C12: the unit of a dimension token and its "universally supported length" classification are
+// modelled as uninterpreted pure functions of the token (trusted: a string slice and a table lookup
+// behind strings.ToLower); css_parser's unit-safety tracker is specified over them.
+//@ func (Token).DimensionUnit
+//@   trusted
+//@   opt pure
+//@   ensures true
+
+//@ func (Token).DimensionUnitIsSafeLength
+//@   trusted
+//@   opt pure
+//@   ensures true
